@@ -5,6 +5,7 @@ known failures allowed), demonstration FAILS; (2) without: demonstration PASSES.
 import subprocess, sys, os, re, shutil
 wt, n = sys.argv[1], sys.argv[2]
 out = os.path.join(wt, "out", n)
+TAGS = ("-tags " + os.environ["SEED_TAGS"] + " ") if os.environ.get("SEED_TAGS") else ""  # demonstrations that use a verif hook
 env = dict(os.environ, GOFLAGS="-mod=mod", GOPROXY="off", GOSUMDB="off", GOTOOLCHAIN="local")
 def sh(cmd, timeout=900):
     p = subprocess.run(cmd, shell=True, cwd=wt, env=env, stdout=subprocess.PIPE, stderr=subprocess.STDOUT, text=True, timeout=timeout)
@@ -32,11 +33,11 @@ try:
     res["tests"] = all(("TestParseArrayHeader" in l or "TestParseStream" in l) for l in fails) and "panic" not in o
     res["tests_detail"] = o.replace("\n", " | ")[:300]
     shutil.copy(demo, dst)
-    rc, o = sh("go test -count=1 -timeout 300s -run '%s' ./%s/ 2>&1 | tail -15" % (run, pkg))
+    rc, o = sh("go test %s-count=1 -timeout 300s -run '%s' ./%s/ 2>&1 | tail -15" % (TAGS, run, pkg))
     res["demo_fails_with_patch"] = ("FAIL" in o or "panic" in o or "fatal error" in o)
     res["demo_with"] = o[-300:].replace("\n", " | ")
     sh("git checkout -- .")
-    rc, o = sh("go test -count=1 -timeout 300s -run '%s' ./%s/ 2>&1 | tail -5" % (run, pkg))
+    rc, o = sh("go test %s-count=1 -timeout 300s -run '%s' ./%s/ 2>&1 | tail -5" % (TAGS, run, pkg))
     res["demo_passes_without"] = (o.strip().startswith("ok") or "\nok" in o) and "FAIL" not in o
     res["demo_without"] = o[-200:].replace("\n", " | ")
 finally:
